@@ -16,6 +16,7 @@
 package gomatrixserverlib
 
 import (
+	"bytes"
 	"database/sql/driver"
 	"encoding/json"
 	"fmt"
@@ -474,6 +475,35 @@ func NewPowerLevelContentFromEvent(event PDU) (c PowerLevelContent, err error) {
 // parseIntegerPowerLevels unmarshals directly to PowerLevelContent, since that will kick up an
 // error if one of the power levels isn't an int64.
 func parseIntegerPowerLevels(contentBytes []byte, c *PowerLevelContent) error {
+	// encoding/json reads a JSON null as "leave the field alone", but a level,
+	// or a map of levels, that is present and null is not an integer.
+	var members map[string]json.RawMessage
+	if err := json.Unmarshal(contentBytes, &members); err == nil {
+		isNull := func(v json.RawMessage) bool { return string(bytes.TrimSpace(v)) == "null" }
+		for _, key := range []string{"ban", "invite", "kick", "redact", "events_default", "state_default", "users_default"} {
+			if v, ok := members[key]; ok && isNull(v) {
+				return errorf("power level %q is null", key)
+			}
+		}
+		for _, key := range []string{"users", "events", "notifications"} {
+			v, ok := members[key]
+			if !ok {
+				continue
+			}
+			if isNull(v) {
+				return errorf("power levels %q is null", key)
+			}
+			var levels map[string]json.RawMessage
+			if err := json.Unmarshal(v, &levels); err != nil {
+				continue // not an object: reported below
+			}
+			for name, level := range levels {
+				if isNull(level) {
+					return errorf("power level %q in %q is null", name, key)
+				}
+			}
+		}
+	}
 	return unmarshalExact(contentBytes, c)
 }
 
